@@ -26,7 +26,7 @@
    `net` / `peak` to bound how often a text may be repeated or wrapped. *)
 EXTENDS Naturals, Sequences, FiniteSets, TLC, Json
 
-CONSTANTS Alphabet,     \* "core" | "extended" | "structural" | "markup" | "full"
+CONSTANTS Alphabet,     \* "core" | "extended" | "structural" | "markup" | "full" | "extbody"
           MaxLen,       \* sequences of 0..MaxLen lexemes
           MaxNest,      \* bound on the nesting counter (40)
           EmitFrom      \* print sequences of length >= EmitFrom as JSON (P-ENUM); MaxLen+1: none
@@ -153,11 +153,51 @@ Zones == {"tag-attr", "unknown-tag-attr", "closing-tag-attr", "ext-tag-attr", "o
           "template-name", "template-arg", "template-param", "parser-function", "magic-word", "nowiki-body"}
 PumpUnits == {"a", "1", "_", "-", ":", "SP_a", "=", "a=", "QUOTE", "APOS", "x", "|", "&", ";", "NONBMP", "/"}
 
+\* ---- bodies and attribute zones of the tag extensions that have a parser of their own.  Each
+\* lexeme is one whole tag (so that the single-lexeme enumeration reaches the mini-parser):
+\*   <imagemap>  extensions/imgmap.py (pyparsing grammar): image line, then ONE line of the grammar.
+\*               Shape lines are the well-formed line with one coordinate replaced by, or one token
+\*               appended from, ImapCoord (one fault per line), captions with / without link and
+\*               label, `default`, `desc`, comments, empty and unknown lines
+\*   <gallery>   core._parse_gallery_txt turns every line into "[[line]]" and parses it as an image link
+\*   <ref>, <references>, <pages>, <listing>, <source>: attribute zones handed to util.parse_params
+\*               and to code that converts the values
+RECURSIVE JoinSp(_)
+JoinSp(q) == IF q = <<>> THEN "" ELSE IF Len(q) = 1 THEN q[1] ELSE q[1] \o " " \o JoinSp(Tail(q))
+ImapCoord == {"1", "57", ".", "..", "...", "1.5", "15.5.2", "-1", "", "1e3", "x"}
+ImapBase(k) == CASE k = "rect" -> <<"0", "0", "10", "10">> [] k = "circle" -> <<"57", "57", "20">>
+                 [] k = "poly" -> <<"1", "2", "3", "4", "5", "6">>
+ImapCoordVariants(k) ==
+  LET b == ImapBase(k) IN
+  {[b EXCEPT ![i] = c] : i \in 1..Len(b), c \in ImapCoord}
+  \cup {b \o <<c>> : c \in ImapCoord} \cup {SubSeq(b, 1, Len(b) - 1), <<>>}
+ImapCaptions == {"[[a]]", "[[a|b]]", "[http://ex.org x]", "a", "", "[[a]] [[b]]", "... [[a]]", ". [[a]]"}
+ImapLines == {k \o " " \o JoinSp(v) \o " [[a|b]]" : k \in {"rect", "circle", "poly"}, v \in UNION {ImapCoordVariants(kk) : kk \in {"rect", "circle", "poly"}}}
+       \cup {k \o " " \o JoinSp(ImapBase(k)) \o " " \o c : k \in {"rect", "circle", "poly"}, c \in ImapCaptions}
+       \cup {"default [[a]]", "default", "default [[a|b]] x", "desc bottom-left", "desc none", "desc x", "desc", "# c", "#", "",
+             "x", "rect", "poly", "circle", "Image:b.png", "rect 0 0 10 10 [[a]]\ncircle 1 1 1 [[b]]\ndefault [[c]]\ndesc top-right"}
+ImageMaps == {"<imagemap>\nImage:a.png|100px|alt\n" \o l \o "\n</imagemap>" : l \in ImapLines}
+       \cup {"<imagemap>\n" \o i \o "\nrect 0 0 10 10 [[a]]\n</imagemap>" : i \in {"", "a.png", "[[Image:a.png]]", "Image:a.png|", "{{Echo|Image:a.png}}", "Image:a.png|1x2x3px"}}
+GalleryLines == {"Image:a.png", "Image:a.png|a", "Image:a.png|[[b]] ''c''", "Image:a.png|1x2x3px", "File:a.png|link=x|alt=y|c", "a.png", "a.png|b",
+                 "|", "]]", "[[", "Image:a.png|]]", "{{Echo|Image:a.png}}", "Image:a.png|<ref>x</ref>", "Image:a.png|{|", "Category:a", ":Image:a.png", " Image:a.png ", "Image:|"}
+Galleries == {"<gallery>\n" \o l \o "\n</gallery>" : l \in GalleryLines}
+       \cup {"<gallery" \o a \o ">\nImage:a.png|a\n</gallery>" : a \in {" perrow=3", " perrow=x", " widths=\"1x\" heights=-1", " caption=\"[[a]]\"", " mode=packed", " perrow=", " ="}}
+AttrZones == {"<ref" \o a \o ">x</ref>" : a \in {" name=a", " name=\"a b\"", " name=", " name", " group=g name=a", " follow=a", " name='a\"b'", " name=a name=b", " =a", " name=1"}}
+       \cup {"<ref" \o a \o "/>" : a \in {" name=a", " name=\"a\" ", " group=\"g\"", ""}}
+       \cup {"<references" \o a \o "/>" : a \in {"", " group=g", " group=\"\"", " responsive=1", " x"}}
+       \cup {"<pages" \o a \o "/>" : a \in {" from=1 to=3 index=x", " from=3 to=1 index=x", " from=a to=b", " from=1 to=b", " from=1", " index=x", " from=1.5 to=2", " from=-1 to=1 index=x", " from=\"\" to=\"\"", " from=1 to=3"}}
+       \cup {"<listing" \o a \o ">x</listing>" : a \in {" name=a", " name=1 alt=2 url=3", " name=\"%s\"", " phone=\"%\"", " name=", ""}}
+       \cup {"<source" \o a \o ">x</source>" : a \in {" lang=c", " enclose=none", " enclose=\"none\" lang=1", " line start=5", " lang"}}
+       \cup {"<timeline>\nImageSize = width:1 height:1\n</timeline>", "<hiero>A1-B1</hiero>", "<hiero></hiero>", "<math>\\frac{1}{</math>",
+             "<poem>\n a\n\n:b\n</poem>", "<inputbox>\ntype=search\n</inputbox>", "<rot13>''a''</rot13>", "<time>[[a]]</time>"}
+ExtBodies == ImageMaps \cup Galleries \cup AttrZones
+
 Lexemes == CASE Alphabet = "core" -> Core
              [] Alphabet = "extended" -> Extended
              [] Alphabet = "structural" -> Structural
              [] Alphabet = "markup" -> Markup
              [] Alphabet = "full" -> Full
+             [] Alphabet = "extbody" -> ExtBodies
 
 -----------------------------------------------------------------------------
 \* nesting
